@@ -153,6 +153,7 @@ def run(ctx):
             s_, stt = rec["static"], rec["state"]
             rep = {"kind": "counterexample", "direct": {k: rec[k] for k in ("static", "state", "additive", "ret", "remaining", "month", "code", "scenario")}}
             dstat["calls"] += 1
+            dstat["float_assert_one_ulp"] = dstat.get("float_assert_one_ulp", 0) + bool(rec.get("float_assert"))
             if "err" in rec:
                 ctx.violation("C06:hours@calculate_change_in_population", f"{rec['code']} {s_['type']}: raised {rec['err']}", rep)
                 continue
